@@ -202,3 +202,26 @@
                               :pattern ((select hpn j))))
          (= (hpnames hp hpn k) (aliasnames a k)))
      :pattern ((hpnames hp hpn k) (aliasnames a k)))))
+
+; ---------------------------------------------------------------------------------------------
+; Parse trees of `predicateexpression` (prolog.g4) and the body the visitor must build for them (C06)
+; ---------------------------------------------------------------------------------------------
+(declare-datatypes ((PE 0)) ((
+  (PESimple (pesp Int))                      ; simplepredicate
+  (PENeg (pen PE))                           ; op='\+' predicateexpression
+  (PEBin (peop String) (pel PE) (per PE))    ; predicateexpression op=(','|'->'|';') predicateexpression
+  (PEParen (pep PE)))))                      ; '(' predicateexpression ')'
+(declare-fun spbody (Int) Body)              ; what visitSimplepredicate builds for a simplepredicate node (true / fail / ! / term)
+; the grammar only has the three binary operators (A-EXT-ANTLR)
+(define-fun-rec wfpe ((p PE)) Bool
+  (ite ((_ is PENeg) p) (wfpe (pen p))
+  (ite ((_ is PEParen) p) (wfpe (pep p))
+  (ite ((_ is PEBin) p) (and (or (= (peop p) ",") (= (peop p) "->") (= (peop p) ";")) (wfpe (pel p)) (wfpe (per p))) true))))
+; ',' is conjunction, '->' if-then, ';' disjunction, '\+' negation, parentheses are transparent
+(define-fun-rec pebody ((p PE)) Body
+  (ite ((_ is PESimple) p) (spbody (pesp p))
+  (ite ((_ is PENeg) p) (BNeg (pebody (pen p)))
+  (ite ((_ is PEParen) p) (pebody (pep p))
+  (ite (= (peop p) ",") (BConj (pebody (pel p)) (pebody (per p)))
+  (ite (= (peop p) "->") (BIfThen (pebody (pel p)) (pebody (per p)))
+       (BDisj (pebody (pel p)) (pebody (per p)))))))))
